@@ -192,8 +192,9 @@ CHECKS["C14"] = {
     "assumptions": ["push payloads carry the message CID, as OutOfStoreSeal produces them", "the reference table is advanced after every log open as the message store does"],
     "units": [
         {"pkg": _SS, "run": "^TestVerif_C14_", Q: {"timeout": 600}, T: {"timeout": 3400, "shards": 12}},
+        {"pkg": ".", "run": "^TestVerif_C14_", Q: {"timeout": 900}, T: {"timeout": 3400, "shards": 8}},
     ],
-    "mandatory_labels": {"all": ["log-then-push", "push-then-log", "push-twice", "near-reference-edge", "tampered", "two-senders", "two-groups", "default-windows", "bitflip-sweep", "insider-forged-push"]},
+    "mandatory_labels": {"all": ["log-then-push", "push-then-log", "push-twice", "near-reference-edge", "tampered", "two-senders", "two-groups", "default-windows", "bitflip-sweep", "insider-forged-push", "stores/push-before-log", "stores/push-after-log"]},
 }
 
 CHECKS["C05"] = {
@@ -292,7 +293,7 @@ CHECKS["C12"] = {
     "units": [
         {"pkg": ".", "run": "^TestVerif_C12_", Q: {"timeout": 900}, T: {"timeout": 3400, "shards": 12}},
     ],
-    "mandatory_labels": {"all": ["mutant/rejected-by-signature-or-type-only", "honest-join", "identity", "descriptor/GroupTypeAccount", "descriptor/GroupTypeContact", "descriptor/GroupTypeMultiMember"]},
+    "mandatory_labels": {"all": ["mutant/rejected-by-signature-or-type-only", "honest-join", "identity", "descriptor/GroupTypeAccount", "descriptor/GroupTypeContact", "descriptor/GroupTypeMultiMember", "descriptor/joined-without-link-key-sig"]},
 }
 
 CHECKS["C06"] = {
